@@ -45,7 +45,9 @@ void Normalizer::Quantifier(SyntaxTree::Node& quant) {
   } else if (declToken == TokenID::NT_ENUM_DECL) {
     EnumDeclaration(quant);
     if (quant(0).token.id == TokenID::NT_TUPLE_DECL) {
-      TupleDeclaration(quant(0), quant(2));
+      // Note: the copied declaration and domain of the remaining variables are outside of the scope of the pattern
+      const auto newName = ProcessTupleDeclaration(quant(0));
+      SubstituteTupleVariable(quant(2), 2, newName);
     }
   }
 }
